@@ -52,6 +52,17 @@ func init() {
 				if i%5 == 2 {
 					cs["debug"] = true
 				}
+				if i%9 == 4 { // a time signature whose denominator is not a power of two: whatever value is written, the file stays a file
+					dn := []int{3, 5, 6, 7, 12, 24}[rng.Intn(6)]
+					if rng.Intn(2) == 0 {
+						fl := caseToFlags(cs["flags"])
+						fl.Meter = fmt.Sprintf("%d/%d", 1+rng.Intn(12), dn)
+						cs["flags"] = fl
+					} else {
+						d[rng.Intn(len(d))].Meter = &Frac{1 + rng.Intn(12), dn}
+						cs["doc"] = d
+					}
+				}
 				switch rng.Intn(6) {
 				case 0:
 					cs["program"] = rng.Intn(256)
